@@ -1519,6 +1519,12 @@ class Authenticated(BaseClientHandler):
         else:
             await self.send_pending_notifications()
 
+        # A mailbox selected with EXAMINE is read-only. The flags can not be
+        # changed.
+        #
+        if self.examine:
+            raise No("Mailbox is read-only")
+
         # We do not issue any messages to the client here. This is done
         # automatically when 'resync' is called because resync will examine
         # the in-memory copy of the sequences with what is on disk and if
